@@ -4,7 +4,7 @@ From Coq Require Import Ascii String List NArith.
 Import ListNotations.
 Require Import Laze.model.Base Laze.model.Env Laze.model.Allow Laze.model.Ninja Laze.model.Ctx
         Laze.model.Resolver Laze.model.Imports Laze.model.Generate
-        Laze.proofs.EnvFacts Laze.proofs.LayerFacts.
+        Laze.proofs.EnvFacts Laze.proofs.LayerFacts Laze.proofs.FinalizeFacts.
 Open Scope list_scope.
 
 (* merging is keywise: one variable through a stack of layers *)
@@ -81,6 +81,21 @@ Theorem C04_define_single : forall e a var value,
   assign_from_string e a = Ok (merge e [(var, Single value)]).
 Proof. exact assign_single. Qed.
 Print Assumptions C04_define_single.
+
+(* the context layers: after ContextBag::finalize the env of every context is the FINAL env of its
+   parent with its own declared env merged on top (parents are merged before their children) *)
+Theorem C04_context_env_inherited : forall b0 bf, finalize b0 = Ok bf ->
+  let b1 := if mem_str (S_ "default") (bag_names b0) then b0 else b0 ++ [context_default] in
+  forall j c, bag_get bf j = Some c ->
+    exists c1, bag_get b1 j = Some c1 /\
+      match c_parent_index c with
+      | None => c_env c = c_env c1
+      | Some p => match bag_get bf p with
+                  | Some pc => c_env c = inherited (c_env pc) (c_env c1)
+                  | None => c_env c = c_env c1 end
+      end.
+Proof. exact finalize_env_inherited. Qed.
+Print Assumptions C04_context_env_inherited.
 
 Example C04_merge_not_assoc :
   let a := EList [S_ "a"] in let b := Single (S_ "b") in let c := EList [S_ "c"] in
